@@ -184,6 +184,14 @@ _EDGE_FIELDS = frozenset(["geom", "id", "orientation", "source", "target", "weig
 _ATOMS = (int, float, str, bool, type(None))
 
 
+def _slots_of(o):
+    out = []
+    for c in type(o).__mro__:
+        sl = getattr(c, "__slots__", ())
+        out.extend([sl] if isinstance(sl, str) else list(sl))
+    return out
+
+
 def _enc(v):
     """Hashable, identity-free form of an arbitrary attribute value (nodes and edges by their id)."""
     c = v.__class__
@@ -214,7 +222,7 @@ class Graph(object):
         self.index = {self.ids[i]: i for i in range(nn)}
         self.pos = [position(variant, i) for i in range(nn)]
         self.nodes = [Node(self.ids[i], ENUCoords(self.pos[i][0], self.pos[i][1], 0)) for i in range(nn)]
-        self.args = self.nodes if by_object(variant) else self.ids
+        self.args = list(self.nodes) if by_object(variant) else self.ids
         net = Network()
         for i in node_insertion_order(variant, nn):
             net.addNode(self.nodes[i])
@@ -231,14 +239,25 @@ class Graph(object):
         self.net = net
         self.edge_objs = list(net.EDGES.values())
         self.edge_by_id = {e.id: e for e in self.edge_objs}
+        # the state lives on the node objects the NETWORK holds (they are the ones handed to addNode on this tree, but
+        # nothing in the interface promises that); the objects the caller created keep being used as query arguments
+        self.user_nodes = self.nodes
+        self.nodes = [net.NODES[i] for i in self.ids]
+        self._ends = [(e, e.source, e.target) for e in self.edge_objs]
+        self._same_nodes = all(a is b for a, b in zip(self.nodes, self.user_nodes))
         self.topo0 = self.topology()
+        self.qt0 = self.quick_topology()
 
     # -- the complete mutable state under queries --------------------------------
     def canon(self):
         """Hashable form of the complete mutable state: every node attribute except id/coord, + DISTANCES."""
         out = []
         for n in self.nodes:
-            d = n.__dict__
+            d = getattr(n, "__dict__", None)
+            if d is None:                         # a slotted Node class: read the slots
+                d = {k: getattr(n, k) for k in _slots_of(n) if hasattr(n, k)}
+                out.append(self._canon_slow(d))
+                continue
             if len(d) == 2:
                 out.append(())                    # fresh node: no routing flag yet
                 continue
@@ -255,7 +274,27 @@ class Graph(object):
                 D = tuple(sorted(D.items(), key=repr))
             except Exception:
                 D = repr(D)
-        return (tuple(out), D, self._canon_extras())
+        return (tuple(out), D, self._canon_extras(), self._canon_foreign())
+
+    def _foreign(self):
+        """End points of edges that are no longer the node objects of this network (an edge re-pointed by another network)."""
+        known = None
+        out = []
+        for e, s0, t0 in self._ends:
+            for which, cur in (("source", e.source), ("target", e.target)):
+                if cur is s0 or cur is t0:
+                    continue
+                if known is None:
+                    known = {id(n) for n in self.nodes}
+                if id(cur) not in known:
+                    out.append((e, which, cur))
+        return out
+
+    def _canon_foreign(self):
+        f = self._foreign()
+        if not f:
+            return ()
+        return tuple((e.id, which, _enc({k: v for k, v in getattr(o, "__dict__", {}).items() if k != "coord"})) for e, which, o in f)
 
     @staticmethod
     def _canon_slow(d):
@@ -279,40 +318,61 @@ class Graph(object):
         return tuple(sorted(((repr(k), _enc(v)) for k, v in self._extras()), key=repr))
 
     def snapshot(self):
+        if any(not hasattr(n, "__dict__") for n in self.nodes):
+            raise ReplayDivergence("node objects without __dict__ cannot be restored in place")
         D = self.net.DISTANCES
         memo = {id(o): o for o in self.nodes + self.edge_objs}
         ex = [(k, v if v.__class__ in _ATOMS else copy.deepcopy(v, dict(memo))) for k, v in self._extras()]
         nd = []
         for n in self.nodes:
             d = dict(n.__dict__)
-            if len(d) > 6:                 # an attribute beyond id, coord and the four routing flags: copied in depth
-                for k, v in d.items():
-                    if k not in _KEEP and v.__class__ not in _ATOMS and v.__class__ is not Node:
-                        d[k] = copy.deepcopy(v, dict(memo))
+            for k, v in d.items():         # anything that is not a plain value or a node (a record, a list): copied in depth
+                if v.__class__ not in _ATOMS and v.__class__ is not Node and k not in _KEEP:
+                    d[k] = copy.deepcopy(v, dict(memo))
             nd.append(d)
-        return (nd, None if D is None else dict(D), ex)
+        ends = [(e, e.source, e.target) for e in self.edge_objs]
+        fd = [(o, dict(o.__dict__)) for _, _, o in self._foreign() if hasattr(o, "__dict__")]
+        return (nd, None if D is None else dict(D), ex, ends, fd)
 
     def restore(self, snap):
         memo = {id(o): o for o in self.nodes + self.edge_objs}
         for n, d in zip(self.nodes, snap[0]):
             n.__dict__.clear()
             n.__dict__.update(d)
-            if len(d) > 6:
-                for k, v in d.items():
-                    if k not in _KEEP and v.__class__ not in _ATOMS and v.__class__ is not Node:
-                        n.__dict__[k] = copy.deepcopy(v, dict(memo))
+            for k, v in d.items():
+                if v.__class__ not in _ATOMS and v.__class__ is not Node and k not in _KEEP:
+                    n.__dict__[k] = copy.deepcopy(v, dict(memo))
         self.net.DISTANCES = None if snap[1] is None else dict(snap[1])
         for k in [k for k in self.net.__dict__ if k not in _NET_TABLES]:
             del self.net.__dict__[k]
         for e in self.edge_objs:
             for k in [k for k in e.__dict__ if k not in _EDGE_FIELDS]:
                 del e.__dict__[k]
+        for e, so, ta in snap[3]:
+            if e.source is not so:
+                e.source = so
+            if e.target is not ta:
+                e.target = ta
+        for o, d in snap[4]:
+            o.__dict__.clear()
+            o.__dict__.update(d)
         for k, v in snap[2]:
             v = v if v.__class__ in _ATOMS else copy.deepcopy(v, dict(memo))
             if isinstance(k, tuple):
                 self.edge_by_id[k[1]].__dict__[k[2]] = v
             else:
                 self.net.__dict__[k] = v
+
+    def quick_topology(self):
+        """Cheap fingerprint of what no query may change: where the nodes are and what the edges join."""
+        return (tuple((n.coord.getX(), n.coord.getY()) for n in self.nodes),
+                () if self._same_nodes else tuple((n.coord.getX(), n.coord.getY()) for n in self.user_nodes),
+                tuple((getattr(e.source, "id", None), getattr(e.target, "id", None), e.orientation, e.weight, e.geom.size())
+                      for e in self.edge_objs),
+                len(self.net.NODES), len(self.net.EDGES))
+
+    def is_clean(self):
+        return self.quick_topology() == self.qt0
 
     def topology(self):
         net = self.net
@@ -405,25 +465,30 @@ def install_heap_counter():
     global _ORIG_PD
     if _ORIG_PD is not None:
         return
-    orig = _netmod.priority_dict
+    orig = getattr(_netmod, "priority_dict", None)
+    if not isinstance(orig, type):
+        return                      # the routing does not use that queue (any more): nothing to count, nothing to judge
     _ORIG_PD = orig
+
+    if not hasattr(orig, "_rebuild_heap") or not hasattr(orig, "pop_smallest"):
+        return
 
     class counting_priority_dict(orig):
         def __init__(self, *a, **k):
             HEAP["created"] += 1
             orig.__init__(self, *a, **k)
 
-        def _rebuild_heap(self):
+        def _rebuild_heap(self, *a, **k):
             HEAP["rebuild_calls"] += 1
-            return orig._rebuild_heap(self)
+            return orig._rebuild_heap(self, *a, **k)
 
-        def pop_smallest(self):
+        def pop_smallest(self, *a, **kw):
             h = getattr(self, "_heap", None)
-            n0 = len(h) if h is not None else None
-            k = orig.pop_smallest(self)
+            n0 = len(h) if isinstance(h, list) else None
+            k = orig.pop_smallest(self, *a, **kw)
             HEAP["pops"] += 1
             h = getattr(self, "_heap", None)
-            if n0 is not None and h is not None:
+            if n0 is not None and isinstance(h, list):
                 HEAP["stale_skipped"] += max(0, n0 - len(h) - 1)
             return k
 
@@ -463,6 +528,11 @@ def run_history(mk, fire, hist):
     return g, res
 
 
+FULL_DEPTH = 2     # a query that seems to leave the network exactly as it was built is expanded all the same below this depth:
+                   # state the harness cannot see (kept somewhere it does not look) must not end the exploration of a
+                   # network after its first query
+
+
 def history_bfs(ctx, gid, mk, events, fire, judge, max_depth, hasher=hash):
     """BFS over histories of `events` on the network built by mk().
 
@@ -499,6 +569,10 @@ def _history_bfs(ctx, gid, mk, events, fire, judge, max_depth, hasher, from_scra
                 res = fire(g, ev)
                 ctx.transition()
                 keep = judge(hist, ev, res, g)
+                if not from_scratch and not g.is_clean():
+                    # a node moved or an edge table changed (judge reports it): restore() cannot undo that, so this
+                    # network is explored again with one fresh network per history
+                    raise ReplayDivergence("a query changed what restore() does not cover: %r on %r" % (hist + (ev,), gid))
                 k2 = g.canon()
                 if ei == check_i:
                     # the same history from scratch on a freshly built network: validates the in-place restore (or, when
@@ -511,6 +585,8 @@ def _history_bfs(ctx, gid, mk, events, fire, judge, max_depth, hasher, from_scra
                         raise ReplayDivergence("history %r on %r does not replay to the state/observation reached "
                                                "in place" % (hist + (ev,), gid))
                 if k2 in seen:
+                    if keep and k2 == k0 and depth + 1 < min(FULL_DEPTH, max_depth):
+                        nxt.append((hist + (ev,), k2, None if from_scratch else g.snapshot()))
                     continue
                 seen.add(k2)
                 ctx.state(hasher((gid, k2)))
@@ -518,7 +594,7 @@ def _history_bfs(ctx, gid, mk, events, fire, judge, max_depth, hasher, from_scra
                     nxt.append((hist + (ev,), k2, None if from_scratch else g.snapshot()))
         depth += 1
         frontier = nxt
-    if g.topology() != g.topo0:
-        raise RuntimeError("a query changed the topology tables of the network: %r" % (gid,))
+    if not from_scratch and g.topology() != g.topo0:
+        raise ReplayDivergence("a query changed the topology tables of the network: %r" % (gid,))
     closed = depth if not frontier else None
     return len(seen), closed
